@@ -41,19 +41,21 @@ const (
 	dRowH
 	dVAlign
 	dCellH
+	dDir
+	dOffset
 	nDims
 )
 
-var dimNames = [nDims]string{"width", "layout", "spacing", "border", "section", "caption", "cols", "content", "cellw", "container", "pageh", "pagegeom", "rowh", "valign", "cellh"}
+var dimNames = [nDims]string{"width", "layout", "spacing", "border", "section", "caption", "cols", "content", "cellw", "container", "pageh", "pagegeom", "rowh", "valign", "cellh", "dir", "offset"}
 
 var dimValues = [nDims][]string{
 	dWidth:     {"auto", "50px", "150px", "100%"},
 	dLayout:    {"auto", "fixed"},
 	dSpacing:   {"0", "2px", "2px 4px"},
-	dBorder:    {"separate-b0", "separate-b1", "collapse-b0", "collapse-b1", "collapse-b1-first3", "separate-pad"},
+	dBorder:    {"separate-b0", "separate-b1", "collapse-b0", "collapse-b1", "collapse-b1-first3", "separate-pad", "separate-first-cell-pad-left-30%"},
 	dSection:   {"plain", "thead", "tfoot", "tfoot-first", "thead+tfoot", "two-tbody"},
 	dCaption:   {"none", "top", "bottom"},
-	dCols:      {"none", "col-w30", "col-span2-w20", "colgroup-span2-w40", "colgroup-col-col50%", "five-cols"},
+	dCols:      {"none", "col-w30", "col-span2-w20", "colgroup-span2-w40", "colgroup-col-col50%", "five-cols", "col-col-w48%"},
 	dContent:   {"rot0", "rot1", "rot2", "rot3", "all-empty", "all-long", "empty-short-short-empty-letter", "alt-short-empty", "tall-multirow", "tall-even"},
 	dCellW:     {"auto", "first-30px", "first-50%", "last-30px", "last-50%"},
 	dContainer: {"200", "100"},
@@ -69,6 +71,11 @@ var dimValues = [nDims][]string{
 	dVAlign: {"baseline", "top", "middle", "bottom"},
 	// specified height on one <td>
 	dCellH: {"auto", "first-30px", "last-30px"},
+	// direction of the table: in a right-to-left table column 0 is the rightmost one
+	dDir: {"ltr", "rtl"},
+	// where the table is laid out: a negative top margin puts it above the top of the page (at a
+	// negative y); the geometry of a table must not depend on where it is
+	dOffset: {"none", "margin-top:-100px"},
 }
 
 type doc struct {
@@ -143,6 +150,7 @@ func (d *doc) deviations() int {
 // ---- derived input facts -------------------------------------------------------------------
 
 func (d *doc) collapse() bool    { b := d.opt[dBorder]; return b >= 2 && b <= 4 }
+func (d *doc) rtl() bool         { return d.opt[dDir] == 1 }
 func (d *doc) pageW() float64    { return [...]float64{200, 100}[d.opt[dContainer]] }
 func (d *doc) paginated() bool   { return d.opt[dPageH] != 0 }
 func (d *doc) pageGeom() uint8   { return d.opt[dPageGeom] }
@@ -445,7 +453,7 @@ func (d *doc) grid() *refGrid {
 	if d.fixedEffective() {
 		// CSS 2.1 §17.5.2.1: the number of columns is the greater of the number of column
 		// elements and the number of columns of the first row
-		g.ncols = [...]int{0, 1, 2, 2, 2, 5}[d.opt[dCols]]
+		g.ncols = [...]int{0, 1, 2, 2, 2, 5, 2}[d.opt[dCols]]
 		if len(g.rows) > 0 {
 			n := 0
 			for _, c := range g.rows[0].cells {
@@ -539,6 +547,8 @@ func (d *doc) html() string {
 		sb.WriteString(`table{border-collapse:collapse} td{padding:0;border:1px solid} tr:first-child>td:first-child{border-width:3px}`)
 	case 5:
 		sb.WriteString(`td{padding:1px 3px}`)
+	case 6: // a percentage padding refers to the width of the table, which depends on the columns
+		sb.WriteString(`td{padding:0} tr:first-child>td:first-child{padding-left:30%}`)
 	}
 	if v := d.opt[dVAlign]; v != 0 {
 		sb.WriteString(` td{vertical-align:` + dimValues[dVAlign][v] + `}`)
@@ -550,6 +560,12 @@ func (d *doc) html() string {
 	}
 	if d.opt[dWidth] != 0 {
 		fmt.Fprintf(&sb, `;width:%s`, dimValues[dWidth][d.opt[dWidth]])
+	}
+	if d.rtl() {
+		sb.WriteString(`;direction:rtl`)
+	}
+	if d.opt[dOffset] == 1 {
+		sb.WriteString(`;margin-top:-100px`)
 	}
 	sb.WriteString(`">`)
 	switch d.opt[dCaption] {
@@ -569,6 +585,8 @@ func (d *doc) html() string {
 		sb.WriteString(`<colgroup><col><col style="width:50%"></colgroup>`)
 	case 5:
 		sb.WriteString(`<col><col><col><col><col>`)
+	case 6: // two sized columns that nearly fill the table: what is left for the other columns is less than the spacing
+		sb.WriteString(`<col style="width:48%"><col style="width:48%">`)
 	}
 	// first / last present cell (source order)
 	first, last := -1, -1
@@ -744,6 +762,9 @@ func (d *doc) features(g *refGrid) []string {
 			mark(1)
 		case 4:
 			mark(1)
+		case 6:
+			mark(0)
+			mark(1)
 		}
 		if wPx && wcell.cs == 1 {
 			mark(wcell.gx)
@@ -805,6 +826,11 @@ func (d *doc) features(g *refGrid) []string {
 			if g.ncols > 1 {
 				colW[1] = tw / 2
 			}
+		case 6:
+			colW[0] = tw * 0.48
+			if g.ncols > 1 {
+				colW[1] = tw * 0.48
+			}
 		}
 		cw := 30.0
 		if wPct {
@@ -833,6 +859,15 @@ func (d *doc) features(g *refGrid) []string {
 	if d.opt[dBorder] == 5 {
 		set["cell-padding"] = true
 	}
+	if d.opt[dBorder] == 6 {
+		set["cell-padding-%"] = true
+	}
+	if d.rtl() {
+		set["rtl"] = true
+	}
+	if d.opt[dOffset] != 0 {
+		set["negative-y"] = true // the table is laid out above the top of the page
+	}
 	if d.opt[dBorder] == 1 || d.opt[dBorder] >= 3 {
 		set["cell-decoration"] = true // cells have a non-zero padding or border
 	}
@@ -856,7 +891,7 @@ func (d *doc) features(g *refGrid) []string {
 	if d.opt[dCols] != 0 {
 		set["col-elements"] = true
 	}
-	if d.opt[dCols] == 4 {
+	if d.opt[dCols] == 4 || d.opt[dCols] == 6 {
 		set["col-width-%"] = true
 	}
 	if d.opt[dSection] != 0 {
